@@ -7,6 +7,9 @@ reduction identity over ℝ.
 -/
 import NumqiProofs.PartialTrace
 import NumqiProofs.Dicke
+import Mathlib.Analysis.Real.Sqrt
+import Mathlib.Data.Complex.Basic
+import Mathlib.Data.Complex.BigOperators
 
 namespace Numqi.C17
 open Numqi Numqi.PT Finset
@@ -25,10 +28,16 @@ theorem partialTrace_eq_contraction (dims : List ℕ) (keep : List Bool) (hlen :
         if part true dims keep x = a ∧ part true dims keep y = b ∧ part false dims keep x = part false dims keep y
         then ρ x y else 0 := by
   rw [partialTrace, sumRange_eq_sum]
-  rw [← sum_ptIndex dims keep hlen]
+  symm
+  rw [← sum_ptIndex dims keep hlen (fun x => ∑ y ∈ range (prodDims dims),
+    if part true dims keep x = a ∧ part true dims keep y = b ∧ part false dims keep x = part false dims keep y
+    then ρ x y else 0)]
   rw [sum_eq_single a]
   · refine sum_congr rfl fun t ht => ?_
-    rw [← sum_ptIndex dims keep hlen, sum_eq_single b]
+    rw [← sum_ptIndex dims keep hlen (fun y =>
+      if part true dims keep (ptIndex dims keep a t) = a ∧ part true dims keep y = b
+        ∧ part false dims keep (ptIndex dims keep a t) = part false dims keep y
+      then ρ (ptIndex dims keep a t) y else 0), sum_eq_single b]
     · rw [sum_eq_single t]
       · have h1 := part_ptIndex dims keep hlen a t ha (mem_range.1 ht)
         have h2 := part_ptIndex dims keep hlen b t hb (mem_range.1 ht)
@@ -96,13 +105,247 @@ theorem partialTraceSparse_eq (dims : List ℕ) (keep : List Bool) (hlen : dims.
 /-- `maskOf` implements `sorted(set(keep_index))`: only membership matters -/
 theorem maskOf_spec (n : ℕ) (keepIdx : List ℕ) (i : ℕ) (hi : i < n) :
     (maskOf n keepIdx)[i]? = some (decide (i ∈ keepIdx)) := by
-  simp [maskOf, hi, List.contains_iff_mem]
+  simp [maskOf, hi]
 
 theorem maskOf_length (n : ℕ) (keepIdx : List ℕ) : (maskOf n keepIdx).length = n := by simp [maskOf]
 
 /-- non-vacuity: the hypotheses are satisfiable and the map is not constant (keep axes {0,2} of 2×3×2) -/
 example : prodSel true [2, 3, 2] [true, false, true] = 4 ∧ ptIndex [2, 3, 2] [true, false, true] 3 2 = 11
-    ∧ partialTrace [2, 3, 2] [true, false, true] (fun x y => (x * 100 + y : ℕ)) 1 2 = 1 * 100 + 2 + (3 * 100 + 4) + (5 * 100 + 6) := by
+    ∧ partialTrace [2, 3, 2] [true, false, true] (fun x y => (x * 100 + y : ℕ)) 1 2 = 106 + 308 + 510 := by
   decide
+
+/-! ## Part 2: Dicke basis -/
+open Numqi.Dicke
+
+/-- **`n · M(a − e_r) = a_r · M(a)`** for the multinomial `M(a) = (Σa)!/∏aᵢ!` (number of strings of occupation `a`). -/
+theorem multinomial_shift (a : List ℕ) (r : ℕ) (hr : r < a.length) (hpos : 0 < a.getD r 0) :
+    a.sum * multinomial (a.set r (a.getD r 0 - 1)) = a.getD r 0 * multinomial a :=
+  multinomial_shift' a r hr hpos
+
+/-- `get_dicke_klist(n, d)` lists exactly the occupation vectors of length `d` summing to `n` … -/
+theorem klist_complete (d n : ℕ) (hd : 1 ≤ d) (a : List ℕ) : a ∈ klist d n ↔ a.length = d ∧ a.sum = n := by
+  obtain ⟨e, rfl⟩ : ∃ e, d = e + 1 := ⟨d - 1, by omega⟩
+  exact mem_klist_iff e n a
+
+/-- … each exactly once … -/
+theorem klist_nodup (d n : ℕ) (hd : 1 ≤ d) : (klist d n).Nodup := by
+  obtain ⟨e, rfl⟩ : ∃ e, d = e + 1 := ⟨d - 1, by omega⟩
+  exact Dicke.klist_nodup e n
+
+/-- … hence **there are `C(n+d-1, d-1)` Dicke vectors**, which is also what `get_dicke_number` returns. -/
+theorem dicke_count (d n : ℕ) (hd : 1 ≤ d) :
+    (klist d n).length = (n + d - 1).choose (d - 1) ∧ dickeNumber n d = (klist d n).length := by
+  obtain ⟨e, rfl⟩ : ∃ e, d = e + 1 := ⟨d - 1, by omega⟩
+  have h := klist_length e n
+  refine ⟨by simpa using h, ?_⟩
+  rw [dickeNumber, choose_eq, h]; simp
+
+/-- **The number of basis strings of occupation `a` is `M(a)`** (so `1/M(a)` are the squared amplitudes of a unit vector). -/
+theorem dicke_support_count (d n : ℕ) (a : List ℕ) (hl : a.length = d) (hs : a.sum = n) :
+    cnt d n a = multinomial a := cnt_eq_multinomial d n a hl hs
+
+/-- **Dicke vectors are normalised**: the squared amplitudes sum to one. -/
+theorem dicke_norm (d n : ℕ) (a : List ℕ) (hl : a.length = d) (hs : a.sum = n) :
+    ∑ x ∈ range (d ^ n), dickeSq d n a x = 1 := by
+  have hM : (multinomial a : ℚ) ≠ 0 := by exact_mod_cast (multinomial_pos a).ne'
+  have h := cnt_eq_multinomial d n a hl hs
+  have : ∀ x ∈ range (d ^ n), dickeSq d n a x
+      = ((if occ d (digits d n x) = a then 1 else 0 : ℕ) : ℚ) * (1 / (multinomial a : ℚ)) := by
+    intro x _; unfold dickeSq; split <;> simp
+  rw [sum_congr rfl this, ← sum_mul, ← Nat.cast_sum]
+  have hc : (∑ x ∈ range (d ^ n), if occ d (digits d n x) = a then 1 else 0) = cnt d n a := rfl
+  rw [hc, h]; field_simp
+
+/-- **Distinct Dicke vectors are orthogonal**: their supports are disjoint. -/
+theorem dicke_orthogonal (d n : ℕ) (a b : List ℕ) (hab : a ≠ b) (x : ℕ) :
+    dickeSq d n a x * dickeSq d n b x = 0 := by
+  unfold dickeSq
+  by_cases h1 : occ d (digits d n x) = a
+  · have h2 : ¬ occ d (digits d n x) = b := fun h => hab (h1.symm.trans h)
+    simp [h2]
+  · simp [h1]
+
+/-- **Permutation invariance**: the amplitude depends on the digit string only through its occupation numbers,
+which are invariant under every permutation of the `n` qudits. -/
+theorem dicke_perm_invariant (d n : ℕ) (a : List ℕ) (x y : ℕ) (h : (digits d n x).Perm (digits d n y)) :
+    dickeSq d n a x = dickeSq d n a y := by
+  unfold dickeSq; rw [occ_perm d h]
+
+/-- **Overlap, squared (rational form compared exactly with the code's table):**
+`(Σ_y ⟨r,y|D_a⟩⟨D_b|s,y⟩)² = a_r b_s/(n+1)²` if `a − e_r = b − e_s`, else `0`;
+here `Σ_y ⟨r,y|D_a⟩⟨D_b|s,y⟩ = common/√(M(a)M(b))`. -/
+theorem dicke_overlap_sq (d n r s : ℕ) (a b : List ℕ) (hr : r < d) (hs : s < d) (hla : a.length = d) (hlb : b.length = d)
+    (hsa : a.sum = n + 1) (hsb : b.sum = n + 1) :
+    ((common d n r s a b : ℚ)) ^ 2 / ((multinomial a : ℚ) * (multinomial b : ℚ)) =
+      if 0 < a.getD r 0 ∧ 0 < b.getD s 0 ∧ a.set r (a.getD r 0 - 1) = b.set s (b.getD s 0 - 1)
+      then ((a.getD r 0 * b.getD s 0 : ℕ) : ℚ) / (((n + 1) * (n + 1) : ℕ) : ℚ) else 0 := by
+  rw [common_eq d n r s a b hr hs hla hlb hsa]
+  by_cases hC : 0 < a.getD r 0 ∧ 0 < b.getD s 0 ∧ a.set r (a.getD r 0 - 1) = b.set s (b.getD s 0 - 1)
+  · rw [if_pos hC, if_pos hC]
+    obtain ⟨h1, h2, h3⟩ := hC
+    have e1 := multinomial_shift' a r (by omega) h1
+    have e2 := multinomial_shift' b s (by omega) h2
+    rw [← h3, hsb] at e2; rw [hsa] at e1
+    have hMa : (multinomial a : ℚ) ≠ 0 := by exact_mod_cast (multinomial_pos a).ne'
+    have hMb : (multinomial b : ℚ) ≠ 0 := by exact_mod_cast (multinomial_pos b).ne'
+    have q1 : ((n : ℚ) + 1) * (multinomial (a.set r (a.getD r 0 - 1)) : ℚ) = (a.getD r 0 : ℚ) * multinomial a := by
+      exact_mod_cast e1
+    have q2 : ((n : ℚ) + 1) * (multinomial (a.set r (a.getD r 0 - 1)) : ℚ) = (b.getD s 0 : ℚ) * multinomial b := by
+      exact_mod_cast e2
+    have hn : ((n : ℚ) + 1) ≠ 0 := by positivity
+    push_cast
+    rw [div_eq_div_iff (mul_ne_zero hMa hMb) (mul_ne_zero hn hn)]
+    linear_combination (((n : ℚ) + 1) * (multinomial (a.set r (a.getD r 0 - 1)) : ℚ)) * q1
+      + ((a.getD r 0 : ℚ) * multinomial a) * q2
+  · rw [if_neg hC, if_neg hC]; simp
+
+/-- **Overlap over ℝ** — the number the code stores: `Σ_y ⟨r,y|D_a⟩⟨D_b|s,y⟩ = √(a_r b_s)/(n+1)·[a − e_r = b − e_s]`. -/
+theorem dicke_overlap (d n r s : ℕ) (a b : List ℕ) (hr : r < d) (hs : s < d) (hla : a.length = d) (hlb : b.length = d)
+    (hsa : a.sum = n + 1) (hsb : b.sum = n + 1) :
+    (common d n r s a b : ℝ) / (√(multinomial a : ℝ) * √(multinomial b : ℝ)) =
+      if 0 < a.getD r 0 ∧ 0 < b.getD s 0 ∧ a.set r (a.getD r 0 - 1) = b.set s (b.getD s 0 - 1)
+      then √((a.getD r 0 : ℝ) * (b.getD s 0 : ℝ)) / ((n : ℝ) + 1) else 0 := by
+  rw [common_eq d n r s a b hr hs hla hlb hsa]
+  by_cases hC : 0 < a.getD r 0 ∧ 0 < b.getD s 0 ∧ a.set r (a.getD r 0 - 1) = b.set s (b.getD s 0 - 1)
+  · rw [if_pos hC, if_pos hC]
+    obtain ⟨h1, h2, h3⟩ := hC
+    have e1 := multinomial_shift' a r (by omega) h1
+    have e2 := multinomial_shift' b s (by omega) h2
+    rw [← h3, hsb] at e2; rw [hsa] at e1
+    set c := multinomial (a.set r (a.getD r 0 - 1)) with hc
+    have hMa : (0 : ℝ) < multinomial a := by exact_mod_cast multinomial_pos a
+    have hMb : (0 : ℝ) < multinomial b := by exact_mod_cast multinomial_pos b
+    have q1 : ((n : ℝ) + 1) * (c : ℝ) = (a.getD r 0 : ℝ) * multinomial a := by exact_mod_cast e1
+    have q2 : ((n : ℝ) + 1) * (c : ℝ) = (b.getD s 0 : ℝ) * multinomial b := by exact_mod_cast e2
+    have hsq : ((c : ℝ) * ((n : ℝ) + 1)) ^ 2
+        = ((a.getD r 0 : ℝ) * (b.getD s 0 : ℝ)) * ((multinomial a : ℝ) * (multinomial b : ℝ)) := by
+      linear_combination (((n : ℝ) + 1) * (c : ℝ)) * q1 + ((a.getD r 0 : ℝ) * multinomial a) * q2
+    have hroot : √(((a.getD r 0 : ℝ) * (b.getD s 0 : ℝ)) * ((multinomial a : ℝ) * (multinomial b : ℝ)))
+        = (c : ℝ) * ((n : ℝ) + 1) := by
+      rw [← hsq]; exact Real.sqrt_sq (by positivity)
+    rw [Real.sqrt_mul (by positivity), Real.sqrt_mul hMa.le] at hroot
+    have hd : √(multinomial a : ℝ) * √(multinomial b : ℝ) ≠ 0 :=
+      mul_ne_zero (Real.sqrt_ne_zero'.2 hMa) (Real.sqrt_ne_zero'.2 hMb)
+    have hn : ((n : ℝ) + 1) ≠ 0 := by positivity
+    rw [div_eq_div_iff hd hn]
+    linarith
+  · rw [if_neg hC, if_neg hC]; simp
+
+/-! ## Part 3: the reduction `A ⊗ Sym^k(B) → AB` -/
+
+/-- amplitude of `D_a` at flat index `x` (over ℝ); its square is the executed model constant `dickeSq` -/
+noncomputable def amp (d n : ℕ) (a : List ℕ) (x : ℕ) : ℝ :=
+  if occ d (digits d n x) = a then 1 / √(multinomial a : ℝ) else 0
+
+theorem amp_sq (d n : ℕ) (a : List ℕ) (x : ℕ) : (amp d n a x) ^ 2 = ((dickeSq d n a x : ℚ) : ℝ) := by
+  unfold amp dickeSq
+  split
+  · have : (0 : ℝ) ≤ multinomial a := by positivity
+    rw [div_pow, Real.sq_sqrt this]; push_cast; ring
+  · simp
+
+theorem amp_nonneg (d n : ℕ) (a : List ℕ) (x : ℕ) : 0 ≤ amp d n a x := by
+  unfold amp; split <;> positivity
+
+/-- the vector of `A ⊗ B^{⊗ n}` with Dicke coordinates `ψ[α, i]`: `Ψ = (1 ⊗ Dickeᵀ) ψ` -/
+noncomputable def embed (d n : ℕ) (ψ : ℕ → ℕ → ℂ) (α x : ℕ) : ℂ :=
+  ∑ i ∈ range (klist d n).length, ψ α i * ((amp d n ((klist d n).getD i []) x : ℝ) : ℂ)
+
+/-- `Tr_{B^{n}} |Ψ⟩⟨Ψ|` for `Ψ ∈ A ⊗ B^{⊗ (n+1)}`, entry `((α,r),(β,s))` -/
+noncomputable def explicitAB (d n : ℕ) (ψ : ℕ → ℕ → ℂ) (α r β s : ℕ) : ℂ :=
+  ∑ y ∈ range (d ^ n), embed d (n + 1) ψ α (r * d ^ n + y) * (starRingEnd ℂ) (embed d (n + 1) ψ β (s * d ^ n + y))
+
+/-- the coefficient the fast reduction must use for the pair of occupation vectors `(a, b)` -/
+noncomputable def coef (n r s : ℕ) (a b : List ℕ) : ℝ :=
+  if 0 < a.getD r 0 ∧ 0 < b.getD s 0 ∧ a.set r (a.getD r 0 - 1) = b.set s (b.getD s 0 - 1)
+  then √((a.getD r 0 : ℝ) * (b.getD s 0 : ℝ)) / ((n : ℝ) + 1) else 0
+
+/-- the table entries over ℂ: `value = √(value²)` -/
+noncomputable def tableC (n d : ℕ) (q : ℕ) : List (ℕ × ℕ × ℂ) :=
+  (bijTable n d (q / d) (q % d)).map fun e => (e.1, e.2.1, ((√((e.2.2 : ℚ) : ℝ) : ℝ) : ℂ))
+
+/-- **Target statement (full strength)**: for every `ψ ∈ A ⊗ Sym^{n+1}(B)` the fast reduction assembled from the index
+table equals embedding with the Dicke basis and tracing out `n` copies explicitly. -/
+def DickeReduction.Statement : Prop :=
+  ∀ (d n : ℕ) (_ : 2 ≤ d) (ψ : ℕ → ℕ → ℂ) (α β r s : ℕ) (_ : r < d) (_ : s < d),
+    @Dicke.assembleAB ℂ _ _ _ ⟨starRingEnd ℂ⟩ d (tableC (n + 1) d) ψ (α * d + r) (β * d + s) = explicitAB d n ψ α r β s
+
+/-- **Proved part of the reduction identity**: the explicit reduction is the double sum over pairs of Dicke vectors with the
+closed-form coefficient `√(a_r b_s)/(n+1)·[a − e_r = b − e_s]` (what remains for `DickeReduction.Statement` is that the index
+table lists exactly the pairs with non-zero coefficient — list bookkeeping which the correspondence check compares exactly on
+every run and `bijTable_lists_coef_support` below checks for small sizes). -/
+theorem dicke_reduction_partial (d n : ℕ) (hd : 1 ≤ d) (ψ : ℕ → ℕ → ℂ) (α β r s : ℕ) (hr : r < d) (hs : s < d) :
+    explicitAB d n ψ α r β s =
+      ∑ i ∈ range (klist d (n + 1)).length, ∑ j ∈ range (klist d (n + 1)).length,
+        ψ α i * (starRingEnd ℂ) (ψ β j) *
+          ((coef n r s ((klist d (n + 1)).getD i []) ((klist d (n + 1)).getD j []) : ℝ) : ℂ) := by
+  set kl := klist d (n + 1) with hkl
+  have hmem : ∀ i ∈ range kl.length, (kl.getD i []).length = d ∧ (kl.getD i []).sum = n + 1 := by
+    intro i hi
+    have hi' := mem_range.1 hi
+    rw [List.getD_eq_getElem _ _ hi']
+    exact (klist_complete d (n + 1) hd _).1 (List.getElem_mem hi')
+  -- overlap of two amplitudes summed over the traced copies
+  have hov : ∀ i ∈ range kl.length, ∀ j ∈ range kl.length,
+      ∑ y ∈ range (d ^ n), (amp d (n + 1) (kl.getD i []) (r * d ^ n + y)) * (amp d (n + 1) (kl.getD j []) (s * d ^ n + y))
+        = coef n r s (kl.getD i []) (kl.getD j []) := by
+    intro i hi j hj
+    obtain ⟨la, sa⟩ := hmem i hi
+    obtain ⟨lb, sb⟩ := hmem j hj
+    rw [coef, ← dicke_overlap d n r s _ _ hr hs la lb sa sb, common, Nat.cast_sum, sum_div]
+    refine sum_congr rfl fun y _ => ?_
+    generalize kl.getD i [] = a
+    generalize kl.getD j [] = b
+    unfold amp
+    by_cases h1 : occ d (digits d (n + 1) (r * d ^ n + y)) = a <;>
+      by_cases h2 : occ d (digits d (n + 1) (s * d ^ n + y)) = b <;> simp [h1, h2]
+    try ring
+  unfold explicitAB embed
+  rw [← hkl]
+  simp only [map_sum, map_mul, Complex.conj_ofReal, Finset.sum_mul_sum]
+  rw [sum_comm]
+  refine sum_congr rfl fun i hi => ?_
+  rw [sum_comm]
+  refine sum_congr rfl fun j hj => ?_
+  rw [← hov i hi j hj]
+  push_cast
+  rw [mul_sum]
+  refine sum_congr rfl fun y _ => ?_
+  ring
+
+/-- rational square of `coef` for total copy number `n` -/
+def coefSq (n r s : ℕ) (a b : List ℕ) : ℚ :=
+  if 0 < a.getD r 0 ∧ 0 < b.getD s 0 ∧ a.set r (a.getD r 0 - 1) = b.set s (b.getD s 0 - 1)
+  then ((a.getD r 0 * b.getD s 0 : ℕ) : ℚ) / ((n * n : ℕ) : ℚ) else 0
+
+theorem coef_sq (n r s : ℕ) (a b : List ℕ) : (coef n r s a b) ^ 2 = ((coefSq (n + 1) r s a b : ℚ) : ℝ) := by
+  unfold coef coefSq
+  split
+  · rw [div_pow, Real.sq_sqrt (by positivity)]; push_cast; ring
+  · simp
+
+/-- Boolean check: for every `(r,s)` and every pair `(i,j)` of Dicke indices the table of `(n,d)` holds at most one triple
+`(i,j,·)`, all its indices are in range, and its `value²` (0 if there is no triple) is `coefSq` — i.e. the table lists exactly
+the support of `coef`, with the right values. -/
+def tableMatches (n d : ℕ) : Bool :=
+  let kl := klist d n
+  (List.range (d * d)).all fun q =>
+    let t := bijTable n d (q / d) (q % d)
+    t.all (fun e => decide (e.1 < kl.length ∧ e.2.1 < kl.length)) &&
+    (List.range kl.length).all fun i => (List.range kl.length).all fun j =>
+      let hits := t.filter fun e => decide (e.1 = i ∧ e.2.1 = j)
+      decide (hits.length ≤ 1) && decide ((hits.map (·.2.2)).sum = coefSq n (q / d) (q % d) (kl.getD i []) (kl.getD j []))
+
+/-- the index table lists exactly the support of the closed-form coefficient, checked by kernel evaluation for
+`(n, d)` with `n ≤ 4, d ≤ 3` and `n ≤ 3, d = 4` (all sizes: compared with the implementation's table on every run) -/
+theorem bijTable_lists_coef_support :
+    tableMatches 1 2 = true ∧ tableMatches 2 2 = true ∧ tableMatches 3 2 = true ∧ tableMatches 4 2 = true ∧
+    tableMatches 1 3 = true ∧ tableMatches 2 3 = true ∧ tableMatches 3 3 = true ∧ tableMatches 4 3 = true ∧
+    tableMatches 1 4 = true ∧ tableMatches 2 4 = true ∧ tableMatches 3 4 = true := by
+  decide +kernel
+
+/-- non-vacuity of the Dicke hypotheses: `(2,0,1)` is an occupation vector of `(n,d) = (3,3)` with `M = 3` -/
+example : [2, 0, 1] ∈ klist 3 3 ∧ multinomial [2, 0, 1] = 3 ∧ (klist 3 3).length = 10 ∧ cnt 3 3 [2, 0, 1] = 3 := by
+  decide +kernel
 
 end Numqi.C17
